@@ -35,7 +35,7 @@ theorem reader_progress (f : Nat) (skip : List Str) (tol : Bool) (mode : Mode) (
 theorem reader_progress_all (f : Nat) : ProgressAt f := progressAt f
 
 /-- `parse` never leaks an internal exception: the model's `Err.internal` (empty buffer in
-`read_expr`, missing group after a matched `\end`) is unreachable. -/
+`read_expr`, exhausted buffer where a matched `\end` is to be consumed) is unreachable. -/
 theorem parse_no_internal (tol : Bool) (skip : List Str) (s : Str) :
     parse tol skip s ≠ .error .internal := TexSoup.parse_no_internal tol skip s
 
